@@ -292,11 +292,19 @@ func pickLevel(rng *rand.Rand, enc string) int {
 }
 
 // genPopulation builds (in memory) a directory population. Pure function of rng.
-func genPopulation(rng *rand.Rand, tag string) *population {
+//
+// ensureAll: a mixed population that holds at least one harness-written CAS
+// file of every on-disk format (both compressed writers, identity with header,
+// .v1, legacy flat and two-level) and an AC and a RAW entry, so that the cases
+// which keep and read everything cover every format by construction.
+func genPopulation(rng *rand.Rand, tag string, ensureAll bool) *population {
 	p := &population{
 		Profile:  weighted(rng, "mixed", 55, "v2", 20, "v0", 10, "v1", 15),
 		PrevMode: lib.Pick(rng, []string{"zstd", "uncompressed"}),
 		PrevImpl: lib.Pick(rng, []string{"go", "cgo"}),
+	}
+	if ensureAll {
+		p.Profile = "mixed"
 	}
 	p.UsePrev = (p.Profile == "mixed" || p.Profile == "v2") && rng.IntN(2) == 0
 	n := pickCount(rng)
@@ -324,7 +332,7 @@ func genPopulation(rng *rand.Rand, tag string) *population {
 			}
 			return lib.Pick(rng, []string{"zstd-kp", "zstd-c"})
 		}
-		return weighted(rng, "zstd-kp", 32, "zstd-c", 28, "v1", 34, "ident-hdr", 6)
+		return weighted(rng, "zstd-kp", 30, "zstd-c", 26, "v1", 30, "ident-hdr", 14)
 	}
 
 	for len(p.Files) < n {
@@ -401,6 +409,34 @@ func genPopulation(rng *rand.Rand, tag string) *population {
 		}
 		p.Files = append(p.Files, f)
 		byKey[f.Key()] = append(byKey[f.Key()], f)
+	}
+
+	if ensureAll {
+		type want struct{ kind, layout, enc string }
+		for _, w := range []want{{"cas", "v2", "zstd-kp"}, {"cas", "v2", "zstd-c"}, {"cas", "v2", "v1"}, {"cas", "v2", "ident-hdr"},
+			{"cas", "flat", "legacy-raw"}, {"cas", "two", "legacy-raw"}, {"ac", "v2", "raw"}, {"raw", "v2", "raw"}} {
+			have := false
+			for _, f := range p.Files {
+				have = have || (f.Writer == "harness" && f.DupIdx == 0 && f.Kind == w.kind && f.Layout == w.layout && f.Enc == w.enc)
+			}
+			if have {
+				continue
+			}
+			id := len(p.Files)
+			f := &fileRec{ID: id, Writer: "harness", Kind: w.kind, Layout: w.layout, Enc: w.enc}
+			ck := weighted(rng, "random", 40, "text", 25, "repetitive", 20, "zero", 15)
+			if f.Kind == "cas" {
+				f.Content = uniqueBlob(rng, pickSize(rng, f.Kind), ck, fmt.Sprintf("%s-f%d", tag, id))
+				f.Hash = lib.Sha256Hex(f.Content)
+			} else {
+				f.Content = lib.GenBlob(rng, pickSize(rng, f.Kind), ck, fmt.Sprintf("%s-f%d", tag, id))
+				f.Hash = lib.RandHash(rng)
+			}
+			f.Level = pickLevel(rng, f.Enc)
+			place(rng, f)
+			p.Files = append(p.Files, f)
+			byKey[f.Key()] = append(byKey[f.Key()], f)
+		}
 	}
 
 	// Non-entry items.
